@@ -58,6 +58,12 @@ pub trait UninitRefMut<OT>: Sized {
             final(self).written() == old(self).written().insert(idx as int, v);
 }
 
+// output container O: Vec1<OT>; `O::Buf` is tevec's `O::UninitRefMut<'_>` (R4: by value -> &mut)
+pub trait Vec1<OT>: Sized {
+    type Buf: UninitRefMut<OT>;
+    spec fn oview(&self) -> Seq<OT>;
+}
+
 pub open spec fn buf_fresh<OT, B: UninitRefMut<OT>>(b: &B, len: nat) -> bool {
     b.cap() == len && b.written() =~= Map::<int, OT>::empty()
 }
@@ -96,6 +102,8 @@ pub proof fn lemma_nrm_push<T, OT>(h: Seq<Call<T, OT>>, c: Call<T, OT>)
 }
 
 pub trait RollingFn<T, OT>: Sized {
+    type Cfg;                              // the immutable captures of the closure (R9)
+    spec fn cfg(&self) -> Self::Cfg;
     spec fn hist(&self) -> Seq<Call<T, OT>>;
     spec fn inv(&self) -> bool;
     spec fn elem_ok(v: T) -> bool;
@@ -108,6 +116,7 @@ pub trait RollingFn<T, OT>: Sized {
             old(self).hist().len() < usize::MAX,
         ensures
             final(self).inv(),
+            final(self).cfg() == old(self).cfg(),
             final(self).hist() == old(self).hist().push(Call { rm, v, out: r });
 }
 
@@ -166,6 +175,8 @@ pub open spec fn idx_ok<T, OT>(h: Seq<CallIdx<T, OT>>, x: Seq<T>, start: Option<
 }
 
 pub trait RollingIdxFn<T, OT>: Sized {
+    type Cfg;
+    spec fn cfg(&self) -> Self::Cfg;
     spec fn hist(&self) -> Seq<CallIdx<T, OT>>;
     spec fn inv(&self) -> bool;
     spec fn series(&self) -> Seq<T>;      // ghost: the series the callback may index into
@@ -177,6 +188,7 @@ pub trait RollingIdxFn<T, OT>: Sized {
         ensures
             final(self).inv(),
             final(self).series() == old(self).series(),
+            final(self).cfg() == old(self).cfg(),
             final(self).hist() == old(self).hist().push(CallIdx { start, end, v, out: r });
 }
 
@@ -206,6 +218,8 @@ pub open spec fn out_idx_ok<T, OT>(w: Map<int, OT>, h: Seq<CallIdx<T, OT>>) -> b
 pub struct CallSlice<T, OT> { pub s: Seq<T>, pub out: OT }
 
 pub trait SliceFn<S, T, OT>: Sized {
+    type Cfg;
+    spec fn cfg(&self) -> Self::Cfg;
     spec fn hist(&self) -> Seq<CallSlice<T, OT>>;
     spec fn inv(&self) -> bool;
     spec fn sview(s: &S) -> Seq<T>;
@@ -214,6 +228,7 @@ pub trait SliceFn<S, T, OT>: Sized {
         requires old(self).inv(),
         ensures
             final(self).inv(),
+            final(self).cfg() == old(self).cfg(),
             final(self).hist() == old(self).hist().push(CallSlice { s: Self::sview(&s), out: r });
 }
 
@@ -227,4 +242,51 @@ pub open spec fn trace_slice<T, OT>(h: Seq<CallSlice<T, OT>>, x: Seq<T>, w: int)
 pub open spec fn out_slice_ok<T, OT>(w: Map<int, OT>, h: Seq<CallSlice<T, OT>>) -> bool {
     &&& buf_full(w, h.len())
     &&& forall|i: int| 0 <= i < h.len() ==> w[i] == (#[trigger] h[i]).out
+}
+
+// ---- what the public Option-dispatching drivers deliver: either into the caller's buffer or as a new container
+pub open spec fn delivered<OT, O: Vec1<OT>>(r: Option<O>, w: Option<Map<int, OT>>, s: Seq<OT>) -> bool {
+    match w {
+        Some(m) => r.is_none() && buf_full(m, s.len()) && (forall|i: int| 0 <= i < s.len() ==> m[i] == #[trigger] s[i]),
+        None => r.is_some() && r.unwrap().oview() =~= s,
+    }
+}
+
+// a public function delivered `len` outputs (into the caller's buffer, or as the returned container), output i satisfying p(i, .)
+pub open spec fn delivered_each<OT, O: Vec1<OT>>(r: Option<O>, w: Option<Map<int, OT>>, len: nat, p: spec_fn(int, OT) -> bool) -> bool {
+    match w {
+        Some(m) => r.is_none() && buf_full(m, len) && (forall|i: int| 0 <= i < len ==> p(i, #[trigger] m[i])),
+        None => r.is_some() && r.unwrap().oview().len() == len && (forall|i: int| 0 <= i < len ==> p(i, #[trigger] r.unwrap().oview()[i])),
+    }
+}
+pub proof fn lemma_delivered_each<OT, O: Vec1<OT>>(r: Option<O>, w: Option<Map<int, OT>>, s: Seq<OT>, p: spec_fn(int, OT) -> bool)
+    requires delivered(r, w, s), forall|i: int| 0 <= i < s.len() ==> p(i, #[trigger] s[i]),
+    ensures delivered_each(r, w, s.len(), p),
+{
+    match w {
+        Some(m) => {
+            assert forall|i: int| 0 <= i < s.len() implies p(i, #[trigger] m[i]) by { assert(m[i] == s[i]); }
+        },
+        None => {
+            let v = r.unwrap().oview();
+            assert forall|i: int| 0 <= i < s.len() implies p(i, #[trigger] v[i]) by { assert(v[i] == s[i]); }
+        },
+    }
+}
+
+pub trait RollingDrivers<T>: Vec1View<T> {
+    // tea-core view.rs rolling_apply: body proved in unit `drv` against exactly this contract
+    fn rolling_apply<O: Vec1<OT>, OT, F: RollingFn<T, OT>>(&self, window: usize, f: &mut F, out: Option<&mut O::Buf>) -> (r: Option<O>)
+        requires
+            old(f).hist().len() == 0,
+            old(f).inv(),
+            all_elem_ok::<T, OT, F>(self.view()),
+            out matches Some(o) ==> buf_fresh(o, self.view().len()),
+            (window == 0 && out.is_none()) ==> panic_allowed(),
+        ensures
+            final(f).inv(),
+            final(f).cfg() == old(f).cfg(),
+            window >= 1 ==> trace_ok(final(f).hist(), self.view(), window),
+            window >= 1 ==> delivered(r, match out { Some(o) => Some(final(o).written()), None => None }, outs(final(f).hist())),
+            window == 0 ==> r.is_none();
 }
